@@ -363,6 +363,12 @@ def replay_step(config, case):
     return r[2] if r[0] == ("nontermination",) else None
 
 
+def key_digest(k) -> bytes:
+    """96-bit digest of a state key: what the BFS stores and what workers send back (full keys are kilobytes of
+    nested tuples; 16 M of them do not fit in memory, and a collision at 2^-96 per pair is not a concern)"""
+    return hashlib.blake2b(repr(k).encode("utf-8", "surrogatepass"), digest_size=12).digest()
+
+
 def _bfs_expand(task):
     """Worker: run every one-letter extension of `word`.
     returns list of (key, obs_digest, violation_or_None)"""
@@ -372,6 +378,7 @@ def _bfs_expand(task):
         w = word + (a,)
         try:
             r = guarded_step(step, ctx, w)
+            r = (key_digest(r[0]), r[1], r[2])
         except Exception:  # harness bug: surface loudly, never as a VIOLATION
             raise RuntimeError("harness error on word %r ctx %r:\n%s" % (w, ctx, traceback.format_exc()))
         out.append(r)
@@ -392,6 +399,7 @@ def product_bfs(step, nletters, depth, init_words=((),), max_transitions=None, b
     frontier = []
     for w in init_words:
         k, o, v = guarded_step(step, ctx, tuple(w))
+        k = key_digest(k)
         res.transitions += 1
         res.obs.add(o)
         if v is not None:
